@@ -106,8 +106,8 @@ pub proof fn lemma_c18_roundtrip(t: PackageType, ns: Seq<char>, name: Seq<char>)
             r.parts.name@ == comb_split(package_type, namespaced_name.text()).1,
             r.parts.version@.len() == 0, r.parts.subpath@.len() == 0, r.parts.qualifiers.qualifiers@.len() == 0''',
                 begin='        proof { axiom_string_from(); } broadcast use axiom_view_of_str;',
-                rw=[('R3', r"namespaced_name\.rsplit_once\('/'\)", "x_rsplit_once(namespaced_name, '/')", '*'),
-                    ('R3', r"namespaced_name\.split_once\(':'\)", "x_split_once(namespaced_name, ':')", '*')]),
+                rw=[('R3', r"namespaced_name\.rsplit_once\(('.')\)", r"x_rsplit_once(namespaced_name, \1)", '*'),
+                    ('R3', r"namespaced_name\.split_once\(('.')\)", r"x_split_once(namespaced_name, \1)", '*')]),
            dict(id='U-comb.combined_name', file=F, fn='combined_name', ctx=_P, wrap=_PW, properties=['C18'],
                 contract='        ensures r@ == comb_join(self.package_type, self.parts.namespace@, self.parts.name@)',
                 rw=[('R3', r'self\.name\(\)\.into\(\)', 'x_cow_from_str(self.name())', '*'),
